@@ -44,6 +44,7 @@ func TemplateFromCert(ctx context.Context, cert *x509.Certificate, pubKey any) (
 	var subjectCn string
 	var subjectSerial *big.Int
 	var timestamp time.Time
+	var validDays int
 
 	template := *cert // copy the root certificate
 	template.PublicKey = pubKey
@@ -62,6 +63,7 @@ func TemplateFromCert(ctx context.Context, cert *x509.Certificate, pubKey any) (
 		subjectCn = bc.RootKeyCommonName
 		subjectSerial = bc.RootKeySerial
 		timestamp = bc.Now
+		validDays = styp.RootValidDays
 		template.Issuer.CommonName = bc.RootKeyCommonName
 		template.Issuer.SerialNumber = subjectSerial.String()
 	} else {
@@ -72,11 +74,16 @@ func TemplateFromCert(ctx context.Context, cert *x509.Certificate, pubKey any) (
 		subjectCn = skc.SigningKeyCommonName
 		subjectSerial = skc.SigningKeySerial
 		timestamp = skc.Now
+		validDays = styp.SignValidDays
 	}
 
 	template.Subject.CommonName = subjectCn
 	template.Subject.SerialNumber = subjectSerial.String()
+	// The certificate serial number is the new subject's serial number, as in
+	// sops.GoogleCertificateTemplate: certificates are not reissued, and the issuer must not hand
+	// out the template certificate's serial number a second time.
+	template.SerialNumber = subjectSerial
 	template.NotBefore = timestamp
-	template.NotAfter = timestamp.Add(time.Duration(styp.SignValidDays) * 24 * time.Hour)
+	template.NotAfter = timestamp.Add(time.Duration(validDays) * 24 * time.Hour)
 	return &template, nil
 }
